@@ -17,8 +17,8 @@ def keep(c):
     return hl.in_module(c) or (c.local and c.kind == "item" and re.match(r"^<.* as (core|alloc|std)::", c.name) is not None)
 
 
-def RN(F, m):
-    return inline.cached(F, m, keep=keep, tag="reg", hof=True, thread=True)
+def RN(F, m, hof=True):
+    return inline.cached(F, m, keep=keep, tag="reg" if hof else "reg-nohof", hof=hof, thread=True)
 
 
 class Locks:
